@@ -21,11 +21,20 @@ package wkb
 // Read itself dispatches through a package-level map of function values and is
 // taken as an opaque source of (geometry, error) pairs.
 
+//@ pred wfHdr(s int, b int, code int) = tokKind(ghostAtO(s, "tok", b)) == 1 && (tokU(ghostAtO(s, "tok", b)) == 0 || tokU(ghostAtO(s, "tok", b)) == 1) && tokKind(ghostAtO(s, "tok", b + 1)) == 2 && tokOrder(ghostAtO(s, "tok", b + 1)) == tokU(ghostAtO(s, "tok", b)) && tokU(ghostAtO(s, "tok", b + 1)) == code
+//@ pred wfPointEnc(s int, b int) = wfHdr(s, b, 1) && tokKind(ghostAtO(s, "tok", b + 2)) == 3 && tokOrder(ghostAtO(s, "tok", b + 2)) == tokU(ghostAtO(s, "tok", b))
+//@ pred wfLineEnc(s int, b int) = wfHdr(s, b, 2) && ptsTokAt(s, b + 2, tokU(ghostAtO(s, "tok", b)))
+//@ pred wfPolyEnc(s int, b int) = wfHdr(s, b, 3) && tokKind(ghostAtO(s, "tok", b + 2)) == 2 && tokOrder(ghostAtO(s, "tok", b + 2)) == tokU(ghostAtO(s, "tok", b)) && 0 <= tokU(ghostAtO(s, "tok", b + 2)) && tokU(ghostAtO(s, "tok", b + 2)) <= 4294967295 && (forall k int :: 0 <= k && k < tokU(ghostAtO(s, "tok", b + 2)) ==> ptsTokAt(s, b + 3 + 2 * k, tokU(ghostAtO(s, "tok", b))))
+
 //@ func Read
-//@   prop C07
-//@   trusted dispatch through the package-level registry of reader functions (dynamic calls through a global map)
+//@   prop C07, C05
+//@   mode ufloat
+//@   trusted dispatch through the package-level registry of reader functions (dynamic calls through a global map): reads the byte-order flag and the type code in that order and hands over to the reader registered for the code (pointReader, lineStringReader, polygonReader, ... as registered in init)
 //@   opt writes=geom.Point,geom.Path,geom.LineString,geom.Polygon,geom.Geom,uint32,float64,alloc
 //@   requires [reader] typeof(r) != nil
+//@   ensures [reads_back_point] old(ghost(r, "pos")) >= 0 && old(ghost(r, "pos")) + 2 < ghost(r, "n") && old(wfPointEnc(objOf(r), ghost(r, "pos"))) ==> result1 == nil && typeof(result0) == geom.Point && tokSamePt(result0.(geom.Point), tokPt(ghostAt(r, "tok", old(ghost(r, "pos")) + 2))) && ghost(r, "pos") == old(ghost(r, "pos")) + 3
+//@   ensures [reads_back_linestring] old(ghost(r, "pos")) >= 0 && old(ghost(r, "pos")) + 3 < ghost(r, "n") && old(wfLineEnc(objOf(r), ghost(r, "pos"))) ==> result1 == nil && typeof(result0) == geom.LineString && runAt(objOf(r), old(ghost(r, "pos")) + 3, old(tokU(ghostAt(r, "tok", ghost(r, "pos")))), result0.(geom.LineString)) && ghost(r, "pos") == old(ghost(r, "pos")) + 4
+//@   ensures [reads_back_polygon] old(ghost(r, "pos")) >= 0 && old(wfPolyEnc(objOf(r), ghost(r, "pos"))) && old(ghost(r, "pos") + 2 + 2 * tokU(ghostAt(r, "tok", ghost(r, "pos") + 2)) < ghost(r, "n")) ==> result1 == nil && typeof(result0) == geom.Polygon && len(result0.(geom.Polygon)) == old(tokU(ghostAt(r, "tok", ghost(r, "pos") + 2))) && (forall k int :: 0 <= k && k < len(result0.(geom.Polygon)) ==> runAt(objOf(r), old(ghost(r, "pos")) + 4 + 2 * k, old(tokU(ghostAt(r, "tok", ghost(r, "pos")))), result0.(geom.Polygon)[k])) && ghost(r, "pos") == old(ghost(r, "pos")) + 3 + 2 * len(result0.(geom.Polygon))
 //@   modifies ghost(r, "pos")
 
 //@ func pointReader
@@ -59,29 +68,42 @@ package wkb
 //@     invariant [wellformed_progress] old(ghost(r, "pos")) >= 0 && old(tokKind(ghostAt(r, "tok", ghost(r, "pos"))) == 2 && tokOrder(ghostAt(r, "tok", ghost(r, "pos"))) == orderCode(byteOrder) && 0 <= tokU(ghostAt(r, "tok", ghost(r, "pos"))) && tokU(ghostAt(r, "tok", ghost(r, "pos"))) <= 4294967295 && ghost(r, "pos") + 2 * tokU(ghostAt(r, "tok", ghost(r, "pos"))) < ghost(r, "n") && (forall k int :: 0 <= k && k < tokU(ghostAt(r, "tok", ghost(r, "pos"))) ==> ptsTokAt(objOf(r), ghost(r, "pos") + 1 + 2 * k, orderCode(byteOrder)))) ==> numRings == old(tokU(ghostAt(r, "tok", ghost(r, "pos")))) && ghost(r, "pos") == old(ghost(r, "pos")) + 1 + 2 * i && (forall k int :: 0 <= k && k < i ==> runAt(objOf(r), old(ghost(r, "pos")) + 2 + 2 * k, orderCode(byteOrder), rings[k]))
 //@     decreases numRings - i
 
+//@ pred wfMPointBody(s int, b int, oc int) = tokKind(ghostAtO(s, "tok", b)) == 2 && tokOrder(ghostAtO(s, "tok", b)) == oc && 0 <= tokU(ghostAtO(s, "tok", b)) && tokU(ghostAtO(s, "tok", b)) <= 4294967295 && (forall k int :: 0 <= k && k < tokU(ghostAtO(s, "tok", b)) ==> wfPointEnc(s, b + 1 + 3 * k))
+
 //@ func multiPointReader
-//@   prop C07
+//@   prop C07, C05
+//@   mode ufloat
 //@   requires [reader] typeof(r) != nil && typeof(byteOrder) != nil
-//@   modifies ghost(r, "pos")
 //@   ensures [geometry_or_error] result1 == nil ==> typeof(result0) == geom.MultiPoint
+//@   ensures [reads_back] old(ghost(r, "pos")) >= 0 && old(wfMPointBody(objOf(r), ghost(r, "pos"), orderCode(byteOrder))) && old(ghost(r, "pos") + 3 * tokU(ghostAt(r, "tok", ghost(r, "pos"))) < ghost(r, "n")) ==> result1 == nil && typeof(result0) == geom.MultiPoint && len(result0.(geom.MultiPoint)) == old(tokU(ghostAt(r, "tok", ghost(r, "pos")))) && (forall k int :: 0 <= k && k < len(result0.(geom.MultiPoint)) ==> tokSamePt(result0.(geom.MultiPoint)[k], tokPt(ghostAt(r, "tok", old(ghost(r, "pos")) + 1 + 3 * k + 2)))) && ghost(r, "pos") == old(ghost(r, "pos")) + 1 + 3 * len(result0.(geom.MultiPoint))
+//@   modifies ghost(r, "pos")
 //@   loop 1 `for i := uint32(0); i < numPoints; i++`
-//@     invariant 0 <= i && i <= numPoints && len(points) == numPoints && fresh(points)
+//@     invariant [basic] 0 <= i && i <= numPoints && len(points) == numPoints && fresh(points) && numPoints <= 4294967295
+//@     invariant [progress] old(ghost(r, "pos")) >= 0 && old(wfMPointBody(objOf(r), ghost(r, "pos"), orderCode(byteOrder))) && old(ghost(r, "pos") + 3 * tokU(ghostAt(r, "tok", ghost(r, "pos"))) < ghost(r, "n")) ==> numPoints == old(tokU(ghostAt(r, "tok", ghost(r, "pos")))) && ghost(r, "pos") == old(ghost(r, "pos")) + 1 + 3 * i && (forall k int :: 0 <= k && k < i ==> tokSamePt(points[k], tokPt(ghostAt(r, "tok", old(ghost(r, "pos")) + 1 + 3 * k + 2))))
 //@     decreases numPoints - i
 
+//@ pred wfMLineBody(s int, b int, oc int) = tokKind(ghostAtO(s, "tok", b)) == 2 && tokOrder(ghostAtO(s, "tok", b)) == oc && 0 <= tokU(ghostAtO(s, "tok", b)) && tokU(ghostAtO(s, "tok", b)) <= 4294967295 && (forall k int :: 0 <= k && k < tokU(ghostAtO(s, "tok", b)) ==> wfLineEnc(s, b + 1 + 4 * k))
+
 //@ func multiLineStringReader
-//@   prop C07
+//@   prop C07, C05
+//@   mode ufloat
 //@   requires [reader] typeof(r) != nil && typeof(byteOrder) != nil
-//@   modifies ghost(r, "pos")
 //@   ensures [geometry_or_error] result1 == nil ==> typeof(result0) == geom.MultiLineString
+//@   ensures [reads_back] old(ghost(r, "pos")) >= 0 && old(wfMLineBody(objOf(r), ghost(r, "pos"), orderCode(byteOrder))) && old(ghost(r, "pos") + 4 * tokU(ghostAt(r, "tok", ghost(r, "pos"))) < ghost(r, "n")) ==> result1 == nil && typeof(result0) == geom.MultiLineString && len(result0.(geom.MultiLineString)) == old(tokU(ghostAt(r, "tok", ghost(r, "pos")))) && (forall k int :: 0 <= k && k < len(result0.(geom.MultiLineString)) ==> runAt(objOf(r), old(ghost(r, "pos")) + 1 + 4 * k + 3, tokU(ghostAt(r, "tok", old(ghost(r, "pos")) + 1 + 4 * k)), result0.(geom.MultiLineString)[k])) && ghost(r, "pos") == old(ghost(r, "pos")) + 1 + 4 * len(result0.(geom.MultiLineString))
+//@   modifies ghost(r, "pos")
 //@   loop 1 `for i := uint32(0); i < numLineStrings; i++`
-//@     invariant 0 <= i && i <= numLineStrings && len(lineStrings) == numLineStrings && fresh(lineStrings)
+//@     invariant [basic] 0 <= i && i <= numLineStrings && len(lineStrings) == numLineStrings && fresh(lineStrings) && numLineStrings <= 4294967295
+//@     invariant [progress] old(ghost(r, "pos")) >= 0 && old(wfMLineBody(objOf(r), ghost(r, "pos"), orderCode(byteOrder))) && old(ghost(r, "pos") + 4 * tokU(ghostAt(r, "tok", ghost(r, "pos"))) < ghost(r, "n")) ==> numLineStrings == old(tokU(ghostAt(r, "tok", ghost(r, "pos")))) && ghost(r, "pos") == old(ghost(r, "pos")) + 1 + 4 * i && (forall k int :: 0 <= k && k < i ==> runAt(objOf(r), old(ghost(r, "pos")) + 1 + 4 * k + 3, tokU(ghostAt(r, "tok", old(ghost(r, "pos")) + 1 + 4 * k)), lineStrings[k]))
 //@     decreases numLineStrings - i
 
+// multiPolygonReader: safety and result type only. Its read-back needs member offsets that are
+// prefix sums over ring-count tokens (variable stride) plus a monotonicity lemma over them; not done.
 //@ func multiPolygonReader
-//@   prop C07
+//@   prop C07, C05
+//@   mode ufloat
 //@   requires [reader] typeof(r) != nil && typeof(byteOrder) != nil
-//@   modifies ghost(r, "pos")
 //@   ensures [geometry_or_error] result1 == nil ==> typeof(result0) == geom.MultiPolygon
+//@   modifies ghost(r, "pos")
 //@   loop 1 `for i := uint32(0); i < numPolygons; i++`
 //@     invariant 0 <= i && i <= numPolygons && len(polygons) == numPolygons && fresh(polygons)
 //@     decreases numPolygons - i
